@@ -358,6 +358,12 @@ def reverseVel (s : Sys) : Sys := { s with vel := s.vel.map V3.neg }
 def rotate (R : Mat3) (s : Sys) : Sys :=
   { s with pos := s.pos.map R.mulVec, vel := s.vel.map R.mulVec }
 
+/-- `if box is not None: system.box = box` — otherwise the System keeps the box it had (`box0`) -/
+def newBox (box0 box : Option (List Rat)) : Option (List Rat) :=
+  match box with
+  | some b => some b
+  | none => box0
+
 /-- `EngineBase.calculate_order(system, xyz, vel, box)` (enginebase.py:139-178) once the arrays are
     known — read from the configuration file or passed explicitly, the SAME statements follow on both
     routes: `system.pos = xyz; system.vel = vel * -1.0 if system.vel_rev else vel; system.box = box;
@@ -367,8 +373,7 @@ def calculateOrder (var : Variant) (op : OP) (velRev : Bool) (box0 : Option (Lis
   let s : Sys :=
     { pos := xyz
       vel := if velRev then vel.map V3.neg else vel
-      -- `if box is not None: system.box = box` — otherwise the System keeps the box it had (`box0`)
-      box := match box with | some b => some b | none => box0 }
+      box := newBox box0 box }
   calculate var op s
 
 end Infretis.Geom
